@@ -1,7 +1,6 @@
 # TODO: Remove this when we migrate to Python 3.14.
 from __future__ import annotations
 
-from functools import cached_property
 from typing import ClassVar
 
 from pydantic import ConfigDict
@@ -142,7 +141,7 @@ class EmissionsConfig(CIBaseModel):
         """PMnvol emission calculation flag."""
         return self.pmnvol_method != PMnvolMethod.NONE
 
-    @cached_property
+    @property
     def enabled_species(self) -> set[Species]:
         result = set()
 
